@@ -350,7 +350,8 @@ func gossipScenario(w *tracelog.Writer, t int, seed int64, done chan enode.ID) e
 			"newentry": !was && isEntry(vt, p.node.ID())})
 	}
 	// gossip calls: source absent, in the table, not in the table
-	for g := 0; g < 6; g++ {
+	promoted := 0
+	for g := 0; g < 12; g++ {
 		var src *enode.ID
 		srcIdx := -1
 		switch g % 3 {
@@ -364,7 +365,19 @@ func gossipScenario(w *tracelog.Writer, t int, seed int64, done chan enode.ID) e
 			rng.Read(id[:])
 			src, srcIdx = &id, -2
 		}
-		if g >= 3 { // a second content id
+		if g == 3 {
+			// entries of buckets that have replacements are deleted: replacements move up and become gossip candidates - the
+			// radius they reported while they were waiting counts (sweep mutant G3/57-C20 recorded pongs of entries only)
+			for _, b := range vt.Snapshot() {
+				for k := 0; k < len(b.Replacements) && k < 4 && k < len(b.Entries); k++ {
+					if i, ok := idx[b.Entries[k].ID]; ok {
+						vt.Delete(peers[i].node)
+						promoted++
+					}
+				}
+			}
+		}
+		if g >= 3 && g%3 == 0 { // another content id for every three calls
 			rng.Read(key)
 			cid = sha256.Sum256(key)
 		}
@@ -389,7 +402,7 @@ func gossipScenario(w *tracelog.Writer, t int, seed int64, done chan enode.ID) e
 			}
 			rl = append(rl, i)
 		}
-		w.Emit(map[string]any{"ev": "g.gossip", "t": t, "src": srcIdx, "table": tab, "res": rl, "err": err != nil, "queued": portalwire.VerifOfferQueueLen(B.P)})
+		w.Emit(map[string]any{"ev": "g.gossip", "t": t, "src": srcIdx, "table": tab, "res": rl, "err": err != nil, "queued": portalwire.VerifOfferQueueLen(B.P), "promoted": promoted})
 	}
 	_ = rand.Int
 	return nil
